@@ -50,7 +50,16 @@ func (c *Calcium) doReallocOnNode(ctx context.Context, node *types.Node, workloa
 			logger.Debugf(ctx, "realloc workload %+v, resource args %+v, engine args %+v", workload.ID, litter.Sdump(resources), litter.Sdump(engineParams))
 			workload.EngineParams = engineParams
 			workload.Resources = resources
-			return c.store.UpdateWorkload(ctx, workload)
+			if err = c.store.UpdateWorkload(ctx, workload); err != nil {
+				// the node has been charged with the delta already and a failure of the
+				// condition step is not rolled back below: give the delta back here
+				rollbackCtx, cancel := context.WithTimeout(utils.NewInheritCtx(ctx), c.config.GlobalTimeout)
+				defer cancel()
+				if e := c.rmgr.RollbackRealloc(rollbackCtx, workload.Nodename, deltaResources); e != nil {
+					logger.Errorf(ctx, e, "failed to rollback workload %+v, resource args %+v", workload.ID, litter.Sdump(deltaResources))
+				}
+			}
+			return err
 		},
 		// then: update virtualization
 		func(ctx context.Context) error {
